@@ -92,10 +92,17 @@ pub fn inputs(seed: u64) -> Arc<Vec<Sample>> {
     let mut b1 = b.clone();
     b1.truncate(90);
     let tiny = rng.bases(7);
+    // a tandem-repeat contig: its reference segments take the plain-ZSTD (level 19) path, the others the
+    // tuple-packed (level 13) path, delta packs a third level - so a compression context that leaks state
+    // between calls of one worker shows up in the bytes
+    let unit = rng.bases(7);
+    let rep: Vec<u8> = (0..140).map(|i| unit[i % 7]).collect();
+    let mut rep1 = rep.clone();
+    rep1[70] = (rep1[70] + 1) & 3;
     Arc::new(vec![
-        ("ref#0".to_string(), vec![("cA".to_string(), a.clone()), ("cB".to_string(), b.clone())]),
+        ("ref#0".to_string(), vec![("cA".to_string(), a.clone()), ("cB".to_string(), b.clone()), ("cR".to_string(), rep)]),
         ("s1#0".to_string(), vec![("cA".to_string(), a1), ("cB".to_string(), b1), ("cT".to_string(), tiny)]),
-        ("s2#0".to_string(), vec![("cA".to_string(), a2), ("cB".to_string(), b)]),
+        ("s2#0".to_string(), vec![("cA".to_string(), a2), ("cB".to_string(), b), ("cR".to_string(), rep1)]),
     ])
 }
 
